@@ -11,5 +11,6 @@ func TestVerifReplay(t *testing.T) {
 		"VerifC04Quick":    VerifC04Quick,
 		"VerifC04Thorough": VerifC04Thorough,
 		"VerifC04Truncate": VerifC04Truncate,
+		"VerifC04Refused":  VerifC04Refused,
 	})
 }
